@@ -68,6 +68,7 @@ def winfn? : SExp → Option WinFn
   | .atom "sum" => some .sum | .atom "count" => some .count | .atom "min" => some .min | .atom "max" => some .max
   | .atom "row_number" => some .rowNumber | .atom "rank" => some .rank | .atom "rank_dense" => some .rankDense
   | .atom "first" => some .first | .atom "last" => some .last
+  | .atom "sum_null" => some .sumNull | .atom "first_implicit" => some .firstImplicit | .atom "last_implicit" => some .lastImplicit
   | .list [.atom "lag", n] => n.nat?.map .lag
   | .list [.atom "lead", n] => n.nat?.map .lead
   | _ => none
@@ -94,7 +95,7 @@ def tr? : SExp → Option Tr
   | .list [.atom "group_take", by_, ks, lo, hi] => do
     pure (.groupTake (← list? SExp.nat? by_) (← list? key? ks) (← optNat? lo) (← optNat? hi))
   | .list [.atom "group_sort", by_, ks] => do pure (.groupSort (← list? SExp.nat? by_) (← list? key? ks))
-  | .list [.atom "window", ws] => (list? window? ws).map .window
+  | .list [.atom "window", by_, ws] => do pure (.window (← list? SExp.nat? by_) (← list? window? ws))
   | .list [.atom "join", .atom side, right, lw, rw, cond] => do
     pure (.join (← side? side) (← src? right) (← lw.nat?) (← rw.nat?) (← expr? cond))
   | .list [.atom "append", right] => (src? right).map .append
